@@ -24,6 +24,23 @@ package controller
 //@   calls auth.SaltToken#1: requires $0 == creds.Tokens[0] && $1 == remote
 //@   calls auth.SaltToken#2: requires $1 == remote
 //@   calls Header.Set#1: requires $0 == "Authorization" && $1 == "Bearer " + token
+//@   # once the salted header has been set, the unsalted token does not travel
+//@   # on in the query string either: the query is parsed (with the decoding
+//@   # net/url applies to keys) and, if it has an api_token key, re-encoded
+//@   # without it
+//@   ghost hset bool = false
+//@   ghost parsed bool = false
+//@   ghost hadtok bool = false
+//@   ghost pvals url.Values = nil
+//@   ghost enc string = ""
+//@   calls Header.Set#1: set hset = true
+//@   calls url.ParseQuery#1: requires $0 == updatedReq.URL.RawQuery
+//@   calls url.ParseQuery#1: set parsed = ($r1 == nil)
+//@   calls url.ParseQuery#1: set hadtok = has($r0, "api_token")
+//@   calls url.ParseQuery#1: set pvals = $r0
+//@   calls Values.Encode#2: requires $recv == pvals && !has(pvals, "api_token")
+//@   calls Values.Encode#2: set enc = $r
+//@   ensures hset && err == nil ==> parsed && (hadtok ==> updatedReq.URL.RawQuery == enc)
 //@   at loop 1 back: assert !has(updatedReq.Header, "Authorization")
 //@   loop 1: invariant !has(updatedReq.Header, "Authorization")
 
